@@ -356,10 +356,10 @@ class Monitor:
                              f'its predicate rejects it')
             j -= 1
         # idle-longest among parallel single-slot devices
-        if j >= 0 and j == len(hist) - 2 and dev.name in self.idle:
-            giver = hist[j]
-            sibs = [y for y in giver._downstream if y is not dev]
-            if sibs and all(y.name in self.idle for y in sibs) and dev.name not in self.exempt_idle:
+        self.exempt_idle |= self.m.rewired       # set_upstream documents a reset of the waiting time
+        if dev.name in self.idle and dev.name not in self.exempt_idle:
+            giver, sibs = self.idle_candidates(dev, part, hist, j)
+            if sibs:
                 me = self.idle[dev.name]
                 my_lo = now if (me[2] == self.events or not self.prev_empty[dev.name]) else me[0]
                 for y in sibs:
@@ -380,6 +380,59 @@ class Monitor:
                                  f'{my_lo}) at {now} although {y.name}, able to take it, has been idle since '
                                  f'{self.idle[y.name][1]} at the latest')
         self.idle.get(dev.name, [0, 0, 0])[2] = self.events
+
+    def idle_candidates(self, dev, part, hist, j):
+        """Who chose `dev` for this part, and which other single-slot devices competed on equal terms?
+        Returns (chooser, siblings) or (None, []) when the situation is not one the oracle is sound for.
+          A  a holding device whose direct downstreams are all single-slot devices;
+          B  a group path the part has just left, whose downstreams are all single-slot devices;
+          C  a holding device whose downstream branches are single-slot devices or LINEAR chains of pass-through
+             devices (one downstream each) ending in one; a branch whose gate refuses this part does not compete."""
+        from simprocesd.model.factory_floor.group import GroupOutput, GroupInput
+        if j < 0:
+            return None, []
+        U = hist[j]
+        # B: the device before was inside a group (its downstream is the group's output): the path chose
+        if any(isinstance(x, GroupOutput) for x in U._downstream):
+            for x in reversed(hist[:-1]):
+                if isinstance(x, GroupPath) and any(y is dev for y in x._downstream):
+                    sibs = [y for y in x._downstream if y is not dev]
+                    if sibs and all(y.name in self.idle for y in sibs):
+                        return x, sibs
+                    return None, []
+            return None, []
+        between = hist[j + 1:-1]
+        if any(len(x._downstream) != 1 or isinstance(x, (GroupPath, GroupInput, GroupOutput)) for x in between):
+            return None, []
+        sibs = []
+        for c in U._downstream:
+            hops = 0
+            while True:
+                if c is dev:
+                    c = None
+                    break
+                if c.name in self.idle:
+                    break
+                if isinstance(c, (GroupPath, GroupInput, GroupOutput)) or not isinstance(c, PartFlowController) \
+                        or isinstance(c, PartHandler) or len(c._downstream) != 1 or hops > 4:
+                    return None, []          # not a linear pass-through chain: hierarchical choice, no flat oracle
+                if c.block_input:
+                    c = None
+                    break
+                if isinstance(c, DecisionGate):
+                    sp = self.m.specs.get(c.name)
+                    if sp is None:
+                        return None, []
+                    ok = ((part.quality >= sp['q']) != sp['neg']) if 'q' in sp else \
+                        ((part_index(part) % sp['mod'] == 0) != sp['neg'])
+                    if not ok:
+                        c = None
+                        break
+                c = c._downstream[0]
+                hops += 1
+            if c is not None:
+                sibs.append(c)
+        return U, sibs
 
     # ------------------------------------------------------------------------------------------ step
     def step(self):
